@@ -17,7 +17,7 @@ const B: &[&str] = &[
     "none_month0", "none_month13", "none_day0", "none_day32", "none_feb29_common",
     "none_ord0", "none_ord366_common", "none_week0", "none_week53_of_52", "none_week54",
     "none_below_range", "none_above_range", "some_iso_year_outside_range",
-    "daynum_below", "daynum_above", "datelike_via_datetime", "random_tuple_valid", "random_tuple_invalid",
+    "daynum_below", "daynum_above", "datelike_via_datetime", "random_tuple_valid", "random_tuple_invalid", "deprecated_panicking_twins",
 ];
 const FLOOR: &[&str] = &[
     "class_A", "class_B", "class_C", "class_D", "class_E", "class_F", "class_G",
@@ -76,6 +76,7 @@ pub fn run(ctx: &Ctx) -> Outcome {
     negative_space(ctx, &rep);
     day_numbers_outside(ctx, &rep);
     random_tuples(ctx, &rep);
+    deprecated_twins(ctx, &rep);
     rep.exhaustive.store(true, std::sync::atomic::Ordering::Relaxed);
     rep.set_extra("exhaustive_domain", json!("all 191,491,529 representable dates (day-number walk); constructor argument tuples are sampled (boundary cells per year + random)"));
     rep.finish(
@@ -83,6 +84,58 @@ pub fn run(ctx: &Ctx) -> Outcome {
         "every day number in [MIN,MAX] is visited by an incremental R-cal walker and compared with chrono's accessors and four constructors; per year the constructor cells (month,day)/(ordinal)/(week,weekday) are enumerated (boundary cells in quick, all in thorough) plus random i32/u32 tuples; a date is non-trivial if it is a month end/start, Feb 28/29, in an ISO spill week or within 400 days of a range end; distinct = distinct such dates/tuples (hashed bitmap, collisions under-count)",
         &["R-cal (harness/src/refcal.rs) is correct: self-tested against fixed anchors and walker-vs-closed-form at start of every run"],
     )
+}
+
+/// The deprecated panicking twins (`from_ymd`, `from_yo`, `from_isoywd`, `from_num_days_from_ce`,
+/// `succ`, `pred`): the same date as the `_opt` form where that gives one, a panic where it gives none.
+#[allow(deprecated)]
+fn deprecated_twins(ctx: &Ctx, rep: &Report) {
+    let bk = bi("deprecated_panicking_twins");
+    let cat = crate::gen::catalogue_days();
+    let n_shards = 64usize;
+    let per = ctx.n(40_000, 4_000_000) / n_shards as u64;
+    par_shards(rep, ctx.threads, n_shards, |shard| {
+        let mut rng = Rng::new(ctx.seed, "C01/deprecated", shard as u64);
+        let mut loc = rep.local();
+        for _ in 0..per {
+            let n = crate::gen::random_day(&mut rng, &cat);
+            let Some(d) = NaiveDate::from_num_days_from_ce_opt(n as i32) else { continue };
+            let (y, m, dd) = rc::civil_from_days(n);
+            let o = rc::ordinal_of(y, m, dd);
+            let (iy, iw, wd) = rc::iso_from_days(n);
+            loc.eval();
+            loc.bucket(bk);
+            type Twin<'a> = (&'static str, Box<dyn Fn() -> NaiveDate + 'a>, Option<NaiveDate>);
+            let mut twins: Vec<Twin> = vec![
+                ("from_ymd", Box::new(move || NaiveDate::from_ymd(y as i32, m as u32, dd as u32)), Some(d)),
+                ("from_yo", Box::new(move || NaiveDate::from_yo(y as i32, o as u32)), Some(d)),
+                ("from_num_days_from_ce", Box::new(move || NaiveDate::from_num_days_from_ce(n as i32)), Some(d)),
+                ("succ", Box::new(move || d.succ()), d.succ_opt()),
+                ("pred", Box::new(move || d.pred()), d.pred_opt()),
+            ];
+            if i32::try_from(iy).is_ok() {
+                twins.push(("from_isoywd", Box::new(move || NaiveDate::from_isoywd(iy as i32, iw as u32, wd_of(wd))), Some(d)));
+            }
+            // a neighbouring tuple that denotes no date must panic, not produce one
+            let (bm, bd) = match rng.below(4) {
+                0 => (m, rc::days_in_month(y, m) + 1),
+                1 => (13, dd),
+                2 => (m, 0),
+                _ => (0, dd),
+            };
+            twins.push(("from_ymd", Box::new(move || NaiveDate::from_ymd(y as i32, bm as u32, bd as u32)), None));
+            for (name, f, exp) in twins {
+                let got = guard(|| f()).ok();
+                if got != exp {
+                    loc.violation(
+                        &format!("C01/deprecated-{}/differs-from-the-opt-form", name),
+                        json!({"date": [y, m, dd], "day_number": n, "expected": exp.map(|e| e.to_string()), "observed": got.map(|e| e.to_string()).unwrap_or_else(|| "panic".into())}),
+                    );
+                }
+            }
+            loc.nontrivial(crate::mon::h2(77, n as u64));
+        }
+    });
 }
 
 fn walk_all_dates(ctx: &Ctx, rep: &Report) {
